@@ -485,7 +485,7 @@ def check_unary(part, cx, a):
         out.append((key, got, got == exp))
         part.case(nontrivial=bool(a))
         if got != exp:
-            part.violation(f'C23:{key}', f'{key}: a={R.terms(a)} over GF({p}) [{cx.kind}]: got {fmt(got)}, expected {fmt(exp)}', detail)
+            part.violation(f'C23:{key}', f'a={R.terms(a)} over GF({p}) [{cx.kind}]: got {fmt(got)}, expected {fmt(exp)}', detail)
 
     # conversions and accessors
     chk('from_int', ev(lambda: K(code)), a)
